@@ -192,6 +192,40 @@ def vault_case(sc: dict[str, Any]) -> dict[str, Any]:
         sim.close()
 
 
+def timer_case(sc: dict[str, Any]) -> dict[str, Any]:
+    """Timers on two objects; the PATCH of the timer's result of object a is answered 503 during [t1, t2] (retries exhausted)."""
+    import kopf
+    from sim.fakek8s import Fault, Plan
+    from sim.opsim import GROUP, PLURAL, VERSION, Sim
+    sim = Sim(wall_budget=20)
+    try:
+        reg = sim.registry()
+        runs: dict[str, list[int]] = {'a': [], 'b': []}
+
+        async def tick(name, **_):
+            runs[name].append(int(sim.now))
+            return {'n': len(runs[name])}          # a result: the framework PATCHes the status after every run
+        kopf.timer(GROUP, VERSION, PLURAL, registry=reg, id='tick', interval=sc['interval'])(tick)
+        kopf.on.create(GROUP, VERSION, PLURAL, registry=reg, id='noop')(sim.handler('noop'))      # so that a diff-base exists
+
+        def policy(req):
+            if req.route.get('kind') == 'patch' and req.route.get('name') == 'a' and sc['t1'] <= sim.now < sc['t2']:
+                return Plan(fault=Fault('status', code=503))
+            return None
+        sim.srv.policy = policy
+        op = sim.operator('op1', reg, sim.settings(networking__error_backoffs=list(sc['backoffs'])))
+        sim.world.at(1, lambda: sim.create('a', {'x': 0}), 1)
+        sim.world.at(1, lambda: sim.create('b', {'x': 0}), 1)
+        sim.run(sc['t2'] + 40)
+        alive = not op.done
+        op.finish()
+        return {'kind': 'timer', 'id': sc['id'], 'alive': alive, 'runs_before': len([t for t in runs['a'] if t < sc['t1']]),
+                'runs_after': len([t for t in runs['a'] if t > sc['t2'] + 2]),
+                'other_runs_during': len([t for t in runs['b'] if sc['t1'] <= t <= sc['t2']]), 'scenario': sc}
+    finally:
+        sim.close()
+
+
 def run(ctx, rep) -> None:
     logging.disable(logging.CRITICAL)
     rep.rule = ('(A) TLC enumerates fault words x backoff configurations on the reference; (B) the real api.request on every fault word '
@@ -208,6 +242,8 @@ def run(ctx, rep) -> None:
     with ProcessPoolExecutor(16) as ex:
         recs += list(ex.map(throttle_case, tscs, chunksize=2))
         recs += list(ex.map(vault_case, vscs, chunksize=1))
+        recs += list(ex.map(timer_case, [{'id': f'timer-{iv}-{len(b)}', 'interval': iv, 'backoffs': b, 't1': 10, 't2': 10 + d}
+                                          for iv in (2, 3) for b in ([], [1], [1, 1]) for d in (6, 12)], chunksize=1))
     bad = records.judge('Rec_Infra', [{k: v for k, v in r_.items() if k != 'scenario'} for r_ in recs], rep=rep, shard=5000)
     rep.evaluations += len(recs); rep.traces += len(recs)
     for rec in recs:
